@@ -86,6 +86,33 @@ def gen(ctx, tier, rng):
     for pt in pts:
         for _ in range(2):
             L.append("x25519 %s %s" % (hexs(rb(rng, 32)), hexs(pt)))
+    # constructed pairs whose OUTPUT is sparse: the shared point non-zero in exactly one byte (every byte position), in exactly one
+    # 64-bit / 32-bit word, or all-ones in one word — the failure test must look at every output byte (theorem scalarmult_rc_exact)
+    targets = []
+    for j in range(32):
+        found = 0
+        for b in rng.sample(range(1, 256), 255):
+            u = b << (8 * j)
+            if u >= (1 << 255):
+                continue
+            nb_ = rb(rng, 32)
+            P_ = edpy.preimage_for_output(nb_, u)
+            if P_ is not None:
+                targets.append((nb_, P_)); found += 1
+                if found >= (1 if not full else 3):
+                    break
+    for w in range(4):
+        for _ in range(2):
+            u = rng.getrandbits(64) << (64 * w)
+            if w == 3:
+                u &= (1 << 255) - 1
+            nb_ = rb(rng, 32)
+            P_ = edpy.preimage_for_output(nb_, u) if u else None
+            if P_ is not None:
+                targets.append((nb_, P_))
+    ctx.stats["sparse_output_pairs"] = len(targets)
+    for (nb_, P_) in targets:
+        L.append("x25519 %s %s" % (hexs(nb_), hexs(P_)))
     # all 2^5 clamp-bit patterns of the scalar (bits 0,1,2 of byte 0 and bits 6,7 of byte 31)
     base = bytearray(rb(rng, 32))
     pt = rb(rng, 32)
